@@ -104,7 +104,8 @@ def t_perms(attr, container, nmax):
 			for e in range(0, 3):
 				if n + e > (5 if nmax == 3 else 6):
 					continue
-				xids = [f'extra{x}' for x in range(e)] if attr != 'ncbi_id' else [5 + x for x in range(e)]
+				# unrelated IDs; for the string attributes they differ from genome IDs only by surrounding white space / case (exact match is required)
+				xids = [gids[0] + ' ', '\t' + gids[-1].upper()][:e] if attr != 'ncbi_id' else [5 + x for x in range(e)]
 				entries = [(gids[i], SIGS[i]) for i in range(n)] + [(xids[x], EXTRA[x]) for x in range(e)]
 				for perm in itertools.permutations(range(n + e)):
 					order = [entries[p] for p in perm]
@@ -246,7 +247,8 @@ def t_negative():
 					for removed in itertools.combinations(range(n), r):
 						for extra in (0, 1, r):
 							keep = [i for i in range(n) if i not in removed]
-							xid = ['zz%d' % x for x in range(extra)] if attr != 'ncbi_id' else [90 + x for x in range(extra)]
+							# the unrelated signatures carry near-miss IDs of the REMOVED genomes (white space appended / prepended)
+							xid = ([gids[removed[x % len(removed)]] + ' ' * (1 + x // len(removed)) for x in range(extra)]) if attr != 'ncbi_id' else [90 + x for x in range(extra)]
 							ids = [gids[i] for i in keep] + xid
 							sigs = [SIGS[i] for i in keep] + [EXTRA[0]] * extra
 							if not ids:
